@@ -121,7 +121,7 @@ def run(ctx):
         "UTF-16 mapping taking effect (def-use), restart ordering, confidence finality and position restoring.")
     r.not_decided = NOT_DECIDED
     r.rule("C06.1", "precedence chain of determineEncoding equals the documented order, confidences and guards", floor=12)
-    r.rule("C06.2", "a declared UTF-16 is mapped to UTF-8 and the mapped value reaches its use", floor=3)
+    r.rule("C06.2", "a declared UTF-16 is mapped to UTF-8 and the mapped value reaches its use", floor=2)
     r.rule("C06.3", "restart: seek(0) < store (new, certain) < reset() < raise; _parse catches exactly _ReparseException and re-runs", floor=4)
     r.rule("C06.4", "charEncoding is stored only by constructors/changeEncoding; changeEncoding is called only while tentative", floor=5)
     r.rule("C06.5", "detection reads of rawStream are followed by a seek on every exit; prescan length is numBytesMeta = 1024", floor=4)
@@ -138,6 +138,11 @@ def run(ctx):
         if not evaluated:
             raise
         r.note("C06: determineEncoding is not written as the recognised chain of early returns; its precedence was decided by running it")
+        chain = None
+    if chain is not None and evaluated and any(str(s_).startswith("?:") for s_, c_, g_ in chain):
+        # a link of the chain goes through a helper the chain reader does not classify (the optional chardet guess moved into a
+        # method): the evaluation above has decided the documented sources
+        r.note("C06: determineEncoding's chain has a link through a helper (%s); the precedence was decided by running it" % [s_ for s_, c_, g_ in chain if str(s_).startswith("?:")])
         chain = None
     if chain is None:
         _after_chain(ctx, repo, binary, det, r)
@@ -168,6 +173,38 @@ ENCODING_LABELS = {
     "utf-16le": ("utf-16le", "utf-16", "unicode", "ucs-2", "csunicode", "iso-10646-ucs-2", "unicodefeff"), "utf-16be": ("utf-16be", "unicodefffe"),
     "shift_jis": ("shift_jis", "sjis", "ms_kanji"), "euc-jp": ("euc-jp",), "big5": ("big5",),
 }
+
+
+def _change_encoding_evaluated(ctx, ch, binary):
+    """changeEncoding run from its source with the label table as model: -> True (utf-16le / utf-16be end up as utf-8,
+    x-user-defined as windows-1252, koi8-r as itself) / False (they do not) / None (not evaluable)"""
+    from ..classeval import ClassEval, Record
+    labels = dict(ENCODING_LABELS)
+    labels["x-user-defined"] = ("x-user-defined",)
+    encs = {name: Record(name=name) for name in labels}
+    by_label = {lab: encs[name] for name, labs in labels.items() for lab in labs}
+
+    def lookup(x):
+        if isinstance(x, Record) or x is None:
+            return x
+        if isinstance(x, bytes):
+            x = x.decode("ascii", "replace")
+        return by_label.get(x.strip().lower())
+    want = {"utf-16le": "utf-8", "utf-16be": "utf-8", "x-user-defined": "windows-1252", "koi8-r": "koi8-r"}
+    try:
+        for label, exp in want.items():
+            attrs = {"charEncoding": (encs["iso-8859-2"], "tentative"), "rawStream": Record(seek=lambda *a: None)}
+            evl = ClassEval(ctx.ce, ch.module, binary, attrs, repo=ctx.repo)
+            evl.function_models = {"lookupEncoding": lookup, "_ReparseException": lambda *a: Record(isa=("_ReparseException",))}
+            evl.method_models = {"reset": lambda: None}
+            evl.allow_raise = True
+            evl.call(ch.name, [label])
+            got = attrs["charEncoding"]
+            if not (isinstance(got, tuple) and isinstance(got[0], Record) and got[0].name == exp and got[1] == "certain"):
+                return False
+    except AnalysisError:
+        return None
+    return True
 
 
 def precedence_evaluated(ctx, det, binary) -> bool:
@@ -279,7 +316,10 @@ def _after_chain(ctx, repo, binary, det, r):
     ch = repo.func(REL, "HTMLBinaryInputStream.changeEncoding")
     cfg = CFG(ch.node)
     tests = [n for n in cfg.nodes if utf16_test(n)]
-    r.check("C06.2", bool(tests), "late-utf16-test", ch.where, "changeEncoding no longer tests for utf-16be/utf-16le")
+    late_eval = _change_encoding_evaluated(ctx, ch, binary)
+    r.idiom("C06.2", bool(tests) or late_eval is True, "late-utf16-test", ch.where, "changeEncoding's test for utf-16be/utf-16le was not recognised",
+            wrong=[(late_eval is False, "changeEncoding keeps a declared UTF-16 (a document that contains an ASCII-readable <meta> cannot be UTF-16): "
+                                        "the standard maps it to UTF-8 (decided by running the method)")])
     for t in tests:
         for m, lab in t.succ:
             if lab is True and maps_utf8(m):
@@ -306,13 +346,16 @@ def _after_chain(ctx, repo, binary, det, r):
     # ---- C06.3
     def call_is(n, text):
         return any(norm(c.func) == text for c in node_calls(n))
+    # locals that hold the current encoding (`current = self.charEncoding[0]`): confirming it is not a restart store
+    cur_aliases = {a.targets[0].id for a in ast.walk(ch.node) if isinstance(a, ast.Assign) and len(a.targets) == 1 and isinstance(a.targets[0], ast.Name)
+                   and norm(a.value) == "self.charEncoding[0]"}
     raises = [n for n in cfg.stmt_nodes() if n.kind == "stmt" and isinstance(n.ast, ast.Raise) and "_ReparseException" in norm(n.ast)]
     r.check("C06.3", len(raises) == 1, "one-restart", ch.where, "changeEncoding has %d restart sites" % len(raises))
     if raises:
         seek = lambda n: call_is(n, "self.rawStream.seek") and any(norm(c) == "self.rawStream.seek(0)" for c in node_calls(n))  # noqa: E731
         store = lambda n: n.kind == "stmt" and isinstance(n.ast, ast.Assign) and attr_chain(n.ast.targets[0]) == ["self", "charEncoding"] \
             and isinstance(n.ast.value, ast.Tuple) and norm(n.ast.value.elts[1]) == "'certain'" \
-            and norm(n.ast.value.elts[0]) != "self.charEncoding[0]"  # noqa: E731
+            and norm(n.ast.value.elts[0]) != "self.charEncoding[0]" and norm(n.ast.value.elts[0]) not in cur_aliases  # noqa: E731
         reset = lambda n: call_is(n, "self.reset")  # noqa: E731
         order_ok = True
         why = []
